@@ -533,9 +533,10 @@ def check_bpm(c: dict) -> list:
         mu = np.array(c["mu"], dtype=float)
         cov = np.zeros((7, 7))
         cov[:6, :6] = np.diag([1e-8, 1e-10, 2e-8, 1e-10, 1e-8, 1e-6])
+        cov = np.broadcast_to(cov, mu.shape[:-1] + (7, 7)).copy()
         b = cheetah.ParameterBeam(torch.tensor(mu, dtype=F64), torch.tensor(cov, dtype=F64), torch.tensor(c["energy"], dtype=F64),
                                   total_charge=torch.tensor(1e-12, dtype=F64), dtype=F64)
-        ex, ey = np.array(mu[0]), np.array(mu[2])
+        ex, ey = np.array(mu[..., 0]), np.array(mu[..., 2])
     else:
         P, sv = np.array(c["particles"], dtype=float), np.array(c["survival"], dtype=float)
         b = pbeam(P, np.array(c["charges"], dtype=float), sv, np.array(c["energy"], dtype=float), F64)
@@ -562,6 +563,11 @@ def gen_bpm(rng) -> dict:
     beam = E.pick(rng, "ParticleBeam", "ParticleBeam", "ParticleBeam", "ParameterBeam")
     c = {"kind": "bpm", "beam": beam, "energy": E.energy(rng), "decoy": bool(rng.random() < 0.5)}
     if beam == "ParameterBeam":
+        if rng.random() < 0.5:      # vectorised: B beams at once (B = 2 makes a transposed reading keep its shape)
+            B = int(rng.integers(2, 4))
+            mu = np.concatenate([rng.normal(size=(B, 6)) * np.array([1e-3, 1e-4, 1e-3, 1e-4, 1e-4, 1e-3]), np.ones((B, 1))], axis=1)
+            c["mu"], c["vform"] = mu.tolist(), "mu"
+            return c
         c["mu"] = (np.append(rng.normal(size=6) * np.array([1e-3, 1e-4, 1e-3, 1e-4, 1e-4, 1e-3]), 1.0)).tolist()
         c["vform"] = "none"
         return c
